@@ -15,27 +15,27 @@ H = {
     "k_arity_6": ("thorough", 300, 600, "arity 6 dispatch", None), "k_arity_7": ("quick", 300, 600, "arity 7 dispatch", None),
     "k_arity_8": ("thorough", 300, 600, "arity 8 dispatch", None), "k_arity_9": ("thorough", 300, 600, "arity 9 dispatch", None),
     "k_arity_10": ("quick", 300, 600, "arity 10 dispatch", None),
-    "k_model_eval_22": ("quick", 400, 900, "SeparableModel<u8>: set_params length guard keeps state; eval Ok, N x M, every element written; index >= P is Err", None),
-    "k_model_eval_23": ("quick", 400, 900, "eval with a function returning N+1 elements is Err(UnexpectedFunctionOutput{N, N+1})", None),
+    "k_model_eval_22": ("quick", 300, 900, "SeparableModel<u8>: set_params length guard keeps state; eval Ok, N x M, every element written; index >= P is Err", None),
+    "k_model_eval_23": ("quick", 300, 900, "eval with a function returning N+1 elements is Err(UnexpectedFunctionOutput{N, N+1})", None),
     "k_model_eval_12": ("thorough", 400, 900, "eval with a function returning N-1 elements is Err", None),
     "k_model_eval_20": ("thorough", 400, 900, "eval with a function returning an empty vector is Err", None),
     "k_model_eval_33": ("thorough", 400, 1200, "3x2 model: every element written", None),
     "k_band_dataflow_f64": ("quick", 300, 600, "confidence_band_radius: quantile looked up once at ((p+1)/2, dof as f64); entry i = t*sigma_i; one entry per sample", None),
-    "k_band_quantile_argument_all_p": ("quick", 600, 1800, "for EVERY f64 p in (0,1): the quantile is looked up once at exactly ((p+1)/2, dof) and the entry is t*sigma", None),
+    "k_band_quantile_argument_all_p": ("quick", 300, 1800, "for EVERY f64 p in (0,1): the quantile is looked up once at exactly ((p+1)/2, dof) and the entry is t*sigma", None),
     "k_band_dataflow_f32": ("quick", 300, 600, "same for f32: product formed in f64 and rounded once", None),
     "k_band_rejects_bad_probability": ("quick", 300, 600, "EVERY f64 p outside (0,1) (incl. NaN, inf) panics: code after the call unreachable", None),
     "k_band_accepts_open_interval": ("quick", 300, 600, "every f64 p inside (0,1) is accepted without panic", None),
     "k_band_monotone_in_t_f32": ("thorough", 0, 3000, "t1<=t2, sigma>=0 => t1*sigma <= t2*sigma in IEEE f32 (radius non-decreasing in the quantile)", None),
     "k_extract_concat_u32": ("quick", 300, 600, "statistics::extract_range returns [start,end) in order; concat_colwise pastes columns", None),
-    "k_fit_err_on_absent_cache": ("quick", 400, 900, "real fit -> real LM on a problem without cache (model failed to evaluate): Err(User) carrying the unchanged problem", None),
+    "k_fit_err_on_absent_cache": ("quick", 300, 900, "real fit -> real LM on a problem without cache (model failed to evaluate): Err(User) carrying the unchanged problem", None),
     "k_fit_ok_on_zero_residuals": ("thorough", 0, 3000, "real fit -> real LM: zero residuals => Ok(ResidualsZero) with the coefficients", None),
     "k_fit_maps_termination": ("thorough", 900, 3000, "real fit -> real LM: no cache => Err(User) carrying the problem; zero residuals => Ok(ResidualsZero); Ok <=> was_successful", None),
     "k_fit_err_on_failing_derivative": ("thorough", 900, 2400, "real fit -> real LM: failing derivative => None Jacobian => Err(User); residuals still those of the reported parameters", None),
-    "k_set_params_fault_logic": ("quick", 600, 1500, "set_params from a filled cache with a rejecting model and/or failing eval: cache dropped, nothing exposed, SVD not even computed, params() = model's",
+    "k_set_params_fault_logic": ("quick", 420, 1500, "set_params from a filled cache with a rejecting model and/or failing eval: cache dropped, nothing exposed, SVD not even computed, params() = model's",
                                  [("core", dict(n=3, m=2, s=1, p=1, w="diag", hist=2))]),
     "k_update_fills_cache": ("thorough", 900, 2400, "successful update from an empty cache (concrete SVD contract): coefficients/residuals of the new state", None),
-    "k_into_sequential_preserves_state": ("quick", 400, 900, "into_sequential moves Y_w, model, epsilon (bit pattern), weights, cache unchanged", None),
-    "k_nonfinite_never_reaches_svd": ("quick", 900, 2400, "for ALL f64 bit patterns of a 2x2 basis matrix and of the weights: the matrix handed to the SVD is finite (SVD precondition), at build",
+    "k_into_sequential_preserves_state": ("quick", 300, 900, "into_sequential moves Y_w, model, epsilon (bit pattern), weights, cache unchanged", None),
+    "k_nonfinite_never_reaches_svd": ("quick", 420, 2400, "for ALL f64 bit patterns of a 2x2 basis matrix and of the weights: the matrix handed to the SVD is finite (SVD precondition), at build",
                                       [("nonfinite", dict(n=3, p=1, val=v, where="phi", i=1, j=0)) for v in ("nan", "inf")] + [("nonfinite", dict(n=5, p=2, val="nan", where="phi", i=0, j=1))]),
     "k_no_panic_downstream_of_svd": ("thorough", 0, 3600, "with arbitrary SVD factors and all f64 inputs (2x2x1) nothing downstream of the SVD panics", None),
 }
